@@ -18,7 +18,7 @@ RULE = ("ID lists mixing explicit, sparse, negative and unassigned (-1) IDs incl
 
 def gen_ids(rng):
     n = rng.randint(0, 8)
-    pool = [-1, -1, -1, 0, 1, 2, 3, 5, 7, 10, 100, -5]
+    pool = [-1, -1, -1, 0, 1, 2, 3, 5, 7, 10, 100, -5] + ([2**32, 2**32 + 1, 2**31] if rng.random() < 0.3 else [])
     ids = [rng.choice(pool) for _ in range(n)]
     if rng.random() < 0.7:   # make explicit ones distinct
         seen, out = set(), []
@@ -33,7 +33,9 @@ def gen_ids(rng):
 
 def gen_graph(rng):
     n = rng.randint(1, 7)
-    ids = rng.sample(range(0, 12), n)
+    # IDs of every magnitude: small, around 2^31 / 2^32 (incl. pairs congruent modulo 2^32) and up to 2^62
+    pool = list(range(0, 12)) + [2**31 - 1, 2**31, 2**32 - 1, 2**32, 2**32 + 1, 2**32 + 5, 2**33, 2**40 + 3, 2**62]
+    ids = rng.sample(pool, n) if rng.random() < 0.4 else rng.sample(range(0, 12), n)
     defs = []
     for i in ids:
         refs = []
